@@ -331,6 +331,9 @@ func (w *advWorld) buildProduct(c advCase) (world.ClientSpec, advVerdict, bool) 
 		hintNode = "node-" + c.Identity
 	case "foreign":
 		hintNode = "node-B"
+	case "near-miss":
+		// not the string the node is registered under, but one a trimming lookup would map onto it
+		hintNode = "node-" + c.Identity + " "
 	}
 	req.NodeId = hintNode
 	if c.StateSig != "none" && c.StateSig != "" {
@@ -889,7 +892,7 @@ func runTLSAdv(c *engine.Ctx) engine.Result {
 					for _, holds := range []bool{true, false} {
 						for _, ns := range []string{"self", "other", "unreg", "missing"} {
 							for _, skip := range []bool{false, true} {
-								for _, hint := range []string{"none", "match", "foreign"} {
+								for _, hint := range []string{"none", "match", "foreign", "near-miss"} {
 									for _, ss := range []string{"none", "valid", "forged", "missing"} {
 										for _, pref := range []string{"valid", "garbage", "absent"} {
 											for _, cn := range []string{"", "evil.example"} {
